@@ -100,14 +100,14 @@ PROPS = {
         "technique": T_R3 + " with interprocedural radix-range summaries; const-evaluated static tables read from the compiler; MIR argument-provenance tables",
     },
     "C07": {
-        "clauses": [guards("shift"), fam("Shl", "Shr", "BitAnd", "BitOr", "BitXor"), r5check.check_helpers],
+        "clauses": [guards("shift"), fam("Shl", "Shr", "BitAnd", "BitOr", "BitXor"), r5check.check_helpers, r5check.check_shifts],
         "not_decided": "running two's-complement carries, intra-digit shifts, bit queries; bit-operator sign tables",
         "level_text": "Decides: the negative-shift panic precedes everything else in biguint_shl/biguint_shr in release builds (comparison against T::zero() on the shift "
         "amount); every shift/bit operator form is a verified forwarder or a reviewed implementation.",
         "technique": T_R3 + "; " + T_R2,
     },
     "C04": {
-        "clauses": [r9.check_eq_ord_hash, r9.check_sign_readers, r5check.check_helpers],
+        "clauses": [r9.check_eq_ord_hash, r9.check_sign_readers, r5check.check_helpers, r5check.check_constructors, r5check.check_shifts],
         "not_decided": "canonical form at every exported boundary (planned R1 typestate); cmp_slice's most-significant-first iteration order",
         "level_text": "Decides (release code only, debug assertions excluded): Eq/Ord/Hash of BigInt read sign and magnitude of every operand, of BigUint the digit vector; Hash reads "
         "only components that Eq compares; cmp_slice consults both lengths and both contents; sign-dependent exporters read the sign.",
